@@ -351,7 +351,8 @@ Proof.
     { unfold L. cbn [rev]. intro Hn. apply app_eq_nil in Hn. destruct Hn as [_ Hn]; discriminate. }
     destruct L as [|l0 ls] eqn:EL; [congruence|].
     cbn [post]. rewrite <- Hrp. cbn [map oPos]. rewrite post_pos.
-    rewrite <- map_rev. fold L. rewrite EL. cbn [map]. rewrite map_map. reflexivity.
+    change (bPos r0 :: map (@bPos num) rs) with (map (@bPos num) (r0 :: rs)).
+    rewrite <- map_rev. change (rev (r0 :: rs)) with L. rewrite EL. cbn [map]. rewrite map_map. reflexivity.
 Qed.
 
 (** ---- Linebreak ---- *)
@@ -377,14 +378,94 @@ Proof.
       - intros a []. }
     destruct Hp as [Hne Hok].
     destruct (finish_ok _ _ _ _ _ Hne H) as (b & Hb & Hcase).
-    destruct (Hok b Hb) as (H1 & H2 & H3).
+    destruct (Hok b Hb) as (H1 & H2 & H3 & H4).
     exists (nchain b). split; [exact H1 | split; [exact H2 | split; [exact H3|]]].
     destruct Hcase as [[Hn Hm]|[Hn Hm]]; [left; auto|]. right. split; [exact Hn|].
-    rewrite Hm. (* a node without real breaks is the root: position 0 *)
-    assert (Hroot : forall a, NodeOK (length items) a -> True) by auto.
-    (* nPos of a node with an empty chain: its ancestor list is empty; such nodes are only ever the root *)
-    f_equal. f_equal. revert Hn. unfold nchain. destruct (nAnc b) eqn:Ea; [|discriminate]. intros _.
-    exact (ltac:(idtac) : nPos b = 0%nat) || idtac.
-Abort.
+    rewrite Hm. (* a node without real breaks has no ancestors: it is the root, at position 0 *)
+    assert (Ha : nAnc b = []).
+    { unfold nchain in Hn. destruct (nAnc b); [reflexivity | discriminate Hn]. }
+    rewrite (H4 Ha). reflexivity.
+Qed.
+
+(** the same for [linebreak], and the reading of the result when the paragraph ends in a forced break *)
+Theorem model_breaks_legal looseness fuel bs ok :
+  linebreak O P items width looseness fuel = Done bs ok ->
+  forced_at O P items (length items - 1) = true ->
+  exists ch, (map (@oPos num) bs = map Z.of_nat (rev ch)) /\
+             (chain_struct ch = true) /\ (hd_error ch = Some (length items - 1)%nat).
+Proof.
+  intros H Hf. unfold linebreak in H.
+  destruct (model_breaks_structural _ _ _ _ _ _ H) as (ch & H1 & H2 & H3 & H4).
+  assert (Hn : (length items - 1 < length items)%nat).
+  { unfold forced_at in Hf. destruct (nth_error items (length items - 1)) eqn:E; [|discriminate].
+    apply nth_error_Some. congruence. }
+  destruct (length items) as [|m] eqn:El; [lia|].
+  replace (S m - 1)%nat with m in * by lia.
+  cbn [KPSpec.forced_between] in H3.
+  destruct (prev_lt (hd_error ch) m) eqn:Ep.
+  - rewrite Hf in H3. discriminate H3.
+  - destruct ch as [|b r]; [discriminate Ep|].
+    cbn [hd_error prev_lt] in Ep. apply Nat.ltb_ge in Ep. simpl in H2.
+    assert (b = m) by lia. subst b.
+    exists (m :: r). destruct H4 as [[_ H4]|[H4 _]]; [|discriminate H4].
+    split; [exact H4 | split; [exact H1 | reflexivity]].
+Qed.
+
+(** ---- a restart strictly raises the tolerance (the goto START loop makes progress) ---- *)
+Definition NtolOK (tol ntol : option num) : Prop :=
+  match ntol with None => True | Some x => tol_ltb O tol x = true end.
+
+Lemma visit_ntol tol it cur a g ntol deact g' ntol' :
+  visit O P items width tol it cur a g ntol = (deact, g', ntol') -> NtolOK tol ntol -> NtolOK tol ntol'.
+Proof.
+  unfold visit. intros H Hn. cbv zeta in H.
+  destruct (adj_ratio O P width cur it (nSums a)) as [|x]; [inversion H; subst; exact Hn|].
+  destruct (nleb O (nm1 O) x && tol_leb O x tol).
+  - destruct (line_dem O P it x (flag_at items (nPos a)) (nFit a)) as [dl c].
+    destruct (match nth c (gD g) None with Some (d0, _, _) => nltb O (nadd O dl (nDem a)) d0 | None => true end);
+      inversion H; subst; exact Hn.
+  - destruct (tol_ltb O tol x) eqn:Et; inversion H; subst; [|exact Hn].
+    destruct ntol as [t|]; cbn [NtolOK]; [|exact Et].
+    unfold nmin. destruct (nltb O x t); [exact Et | exact Hn].
+Qed.
+
+Lemma mloop_ntol tol b it cur : forall rest g inact ntol out inact' ntol',
+  mloop O P items width tol b it cur rest g inact ntol = (out, inact', ntol') -> NtolOK tol ntol -> NtolOK tol ntol'.
+Proof.
+  induction rest as [|a rest IH]; intros g inact ntol out inact' ntol' H Hn.
+  - cbn [mloop] in H. inversion H; subst. exact Hn.
+  - cbn [mloop] in H.
+    destruct (visit O P items width tol it cur a g ntol) as [[deact g'] ntol1] eqn:Ev.
+    pose proof (visit_ntol _ _ _ _ _ _ _ _ _ Ev Hn) as Hn1.
+    destruct (match rest with [] => true | nx :: _ => (S (nLine a) <=? nLine nx)%nat end).
+    + destruct (mloop O P items width tol b it cur rest g_empty (if deact then inact ++ [a] else inact) ntol1) as [[outr inactr] ntolr] eqn:Em.
+      inversion H; subst. exact (IH _ _ _ _ _ _ Em Hn1).
+    + destruct (mloop O P items width tol b it cur rest g' (if deact then inact ++ [a] else inact) ntol1) as [[outr inactr] ntolr] eqn:Em.
+      inversion H; subst. exact (IH _ _ _ _ _ _ Em Hn1).
+Qed.
+
+(** [pass] asks for a restart only with a tolerance strictly above the current one (a ratio that occurred,
+    or +Inf when the current one is finite); with tolerance +Inf it never restarts. *)
+Theorem restart_raises_tolerance tol : forall l b cur act inact ntol ovf t ovf',
+  NtolOK tol ntol ->
+  pass O P items width tol l b cur act inact ntol ovf = PRestart t ovf' ->
+  match tol, t with
+  | Some a, Some x => nltb O a x = true
+  | Some _, None => True
+  | None, _ => False
+  end.
+Proof.
+  induction l as [|it l IH]; intros b cur act inact ntol ovf t ovf' Hn H; [discriminate|].
+  cbn [pass] in H.
+  destruct (runs_main O P items b it) as [doit|]; [|discriminate].
+  destruct (if doit then mloop O P items width tol b it cur act g_empty inact ntol else (act, inact, ntol)) as [[act1 inact1] ntol1] eqn:Em.
+  assert (Hn1 : NtolOK tol ntol1).
+  { destruct doit; [eapply mloop_ntol; eauto | inversion Em; subst; exact Hn]. }
+  cbv zeta in H. destruct act1 as [|a1 act1'].
+  - destruct (tol_neq O tol ntol1) eqn:Etn.
+    + inversion H; subst t ovf'. destruct tol as [a|]; destruct ntol1 as [x|]; cbn in *; auto; discriminate.
+    + eapply IH; eauto.
+  - eapply IH; eauto.
+Qed.
 
 End Model.
